@@ -16,8 +16,8 @@ pub static DEF: CheckDef = CheckDef {
     id: "C26",
     variants: &["responses-and-heartbeats"],
     run,
-    quick_runs: 20_000,
-    thorough_runs: 1_000_000,
+    quick_runs: 300_000,
+    thorough_runs: 20_000_000,
     rule: "case = create_multipart_mixed_stream over a simulated response source (0-6 responses with generated content: nested values, strings containing CR/LF, quotes and the text '--graphql', errors with paths) and a simulated heartbeat timer (interval 3/10/100us, may fire late); responses, timer expiries and end-of-stream are delivered singly or together before the next poll, also while the generator is suspended between the chunks of one part (lagging consumer); the select! coin is seeded from the tape. Oracle: the concatenated bytes parse with a strict RFC 2046 parser written for the harness (boundary 'graphql', every part 'Content-Type: application/json'); the non-heartbeat bodies, JSON-decoded, equal the delivered responses exactly once and in order; heartbeat bodies are {}; exactly one closing delimiter, last; the stream then ends. Non-trivial = at least one response and one heartbeat in the same body; distinct = distinct event-order hashes.",
     real: &["async_graphql::http::create_multipart_mixed_stream", "asynk-strim generator", "futures-util select! (vendored copy with a seedable PRNG)", "serde_json serialisation of Response"],
     stub: &["response source (simulated channel)", "heartbeat Timer (simulated clock)", "HTTP body consumer"],
